@@ -6,6 +6,7 @@ import (
 	"os"
 	"path/filepath"
 	"strings"
+	"sync/atomic"
 	"time"
 
 	"github.com/DistCompiler/pgo/distsys"
@@ -40,6 +41,8 @@ func (c caseSpec) String() string {
 }
 
 type failure struct{ key, what string }
+
+var selfSeq atomic.Int64
 
 // chooser abstracts explore.Ctx so that the runner can also be driven by a fixed script.
 type chooser interface {
@@ -189,7 +192,7 @@ func newRunner(cs caseSpec, env *wenv, withFaulty bool, file bool, st *runStats)
 		if file {
 			// the log file is found by its name (trace-<self>-*.log): a self that is unique per execution cannot
 			// be confused with a file left behind by an earlier execution of this worker
-			selfName = fmt.Sprintf("%sx%d", selfName, env.execs)
+			selfName = fmt.Sprintf("%sx%d", selfName, selfSeq.Add(1)) // process-wide counter
 		}
 		ac := &actor{idx: a, name: archNames[a], self: tla.MakeString(selfName), secs: secs, store: map[string]string{}}
 		ac.script = &gate2.Script{Prog: gate2.Program{Arch: ac.name, Vars: r.b.vars[a], Sections: secs}}
